@@ -435,7 +435,7 @@ def _unconditional_resets(prog, cls, attr):
     return out
 
 
-@rule("SH4", ["C16", "C04", "C03"], "solver-handle attributes are reset on both exits of a solve; failure path disposes every field", engine="EFF+CG", floor=4)
+@rule("SH4", ["C16", "C04", "C03", "C02"], "solver-handle attributes are reset on both exits of a solve; failure path disposes every field", engine="EFF+CG", floor=4)
 def sh4(prog, rr):
     cg = callgraph(prog)
     rnd = prog.method("Randomizer", "randomize")
